@@ -31,7 +31,7 @@ def classify(chk, mism, lines):
 
 def run_guid(chk, binp=None, replay_obs=None):
     rm.local_known(chk, ["C10guid"], prop="C10")
-    binp = binp or core.build("rules")
+    binp = binp or rm.build("rules")
     cases = chk.path("guid_cases.ndjson")
     if replay_obs is not None:
         with open(cases, "w") as f:
@@ -68,7 +68,7 @@ def run_guid(chk, binp=None, replay_obs=None):
 
 def run(pid, tier, replay):
     chk = core.Check("C10guid", "model_checking", tier)
-    binp = core.build("rules")
+    binp = rm.build("rules")
     rp = None
     if replay:
         with open(replay) as f:
